@@ -431,7 +431,7 @@ def run(ctx):
                        "rejected value, converted value) reads (first read of the default included), `del`, quiet sets and add_trait over the existing trait; evaluation = one "
                        "operation; non-trivial = some step calls a handler or is refused")
     rnd = random.Random(ctx.seed)
-    n, maxlen = (1200, 12) if ctx.tier == "quick" else (18000, 40)
+    n, maxlen = (1200, 12) if ctx.tier == "quick" else (15000, 40)
     if ctx.replay:
         cases = [json.load(open(ctx.replay))["replay"]["case"]]
     else:
